@@ -6,65 +6,65 @@ props = [json.loads(l) for l in open(os.path.join(V, 'properties.jsonl'))]
 
 # id -> (engine, technique, level text, level note)
 CLAIMS = {
- "C01": ("asnlint", "static analysis: template vocabulary of every quote! body checked against the parsed `rasn::prelude` of the pinned rasn; emitted #[rasn(..)] keys against rasn-derive-impl's accepted keys per position; branch delta of the lazy templates; enumeration of text-to-token sites",
-         "Necessary conditions only: every type/trait name the generator emits resolves inside the emitted module, every rasn attribute key is accepted by the pinned derive at the position it is emitted, LazyLock/lazy_static templates and import agree, text-to-token sites do not grow unnoticed. Type-checking of arbitrary generated programs is NOT decided by this family.",
-         "Trusted: the registry sources are the versions Cargo.lock pins; Rust prelude list."),
- "C02": ("asnlint", "static analysis: sibling-agreement rule over every ASN1Type pattern (SEQUENCE/SET, SEQUENCE OF/SET OF); adaptor whitelist over component-list iterator chains; kind->type table extraction; guard/emission pairs",
-         "Every decision over ASN1Type treats SET like SEQUENCE and SET OF like SEQUENCE OF; no component-list chain filters, reorders or truncates; the ASN.1-kind -> rasn-type tables agree with the reference and each other; Box/set/SetOf/default wrappers are applied under their exact guards. (List conversions and Option<> wrapping are decided under C05.)",
-         "Not decided: that the parsed list equals the source list; hoisted names for arbitrary nesting."),
- "C04": ("asnlint", "static analysis: abstract evaluation of fold_constraint_set (helpers inlined) over all order types of two operands on a 6-point end-point alphabet incl. open ends; exhaustive tables for serial combination, rendering and fixed_size",
-         "For every pair of value/range operands and each of UNION/INTERSECTION/EXCEPT the folded bound never excludes a permitted value and equals the hull/intersection/base; serial constraints intersect with absent = identity, extensibility sticky; the (min?,max?,ext,size) rendering table and fixed_size are exhaustive.",
-         "Not decided: parser precedence/associativity, reference resolution, expressions with 3+ operands, character-string folding."),
- "C07": ("asnlint", "static analysis: exhaustive evaluation of literal tables and tiny pure converters over their whole finite domain (16 hex digits, 256 octets, X.660 arc names, string-type constructors)",
-         "Table clauses only: hex/bstring digit tables, both octet<->bit converters for all 256 octets (MSB first), named-bit vector construction, well-known OID arcs and root detection against X.660, string constructor/type agreement, quote unescaping. Everything that depends on literal contents or reference chains is not decided.",
-         "Trusted: ref/x660_arcs.json; rasn BitString is MSB-first."),
- "C09": ("asnlint", "static analysis: sibling agreement of the four detector/rewriter traversal pairs of the linker over container variants; insertion-position rule for COMPONENTS OF",
-         "Each notation detector and its rewriter descend into the same containers; COMPONENTS OF takes root components only, accepts SET, and is checked for splice position. The equivalence sugared = expanded itself and name-order independence are NOT decided (not applicable to this family).",
-         "A thin necessary condition; see DESIGN §5."),
- "C10": ("asnlint", "static analysis: exhaustive variant analysis of every generator dispatch (which IR variants reach an empty result); guard-table vs pattern agreement at each remove/insert site of the linker; fold closures evaluated for Ok/Err; discarded-Result lint",
-         "No IR variant outside the documented silent categories can reach an empty output; every removal from the definitions map re-inserts on all accepting branches and each refutable pattern is implied by its guard; per-definition folds turn an Err into exactly one warning and continue; no linker/generator Result is discarded. The bare-name map key is a known finding.",
+ "C01": ("asnlint", "static analysis: template vocabulary and #[rasn(..)] keys of every quote! body checked against the parsed prelude / derive of the pinned rasn; abstract evaluation (syntax-tree evaluator) of the sites where two generator fns must name the same item or type (definition vs reference of hoisted types, default-function names, integer-type selectors, From impls, import lists, empty SET, refused kinds, fixed-size values, hstrings behind references); keyword table against ref/rust_keywords.json; contradiction rule over link_with_type guards",
+         "Necessary conditions of type-checking, each a named structural clause (DESIGN §3 C01): names and attribute keys resolve against the pinned rasn, paired sites agree for every evaluated shape, keywords are escaped. Type-checking of arbitrary generated programs is NOT decided by this family.",
+         "Trusted: the registry sources are the versions Cargo.lock pins; Rust prelude list. Seven recorded findings (known_findings.txt)."),
+ "C02": ("asnlint", "static analysis: sibling-agreement rule over every ASN1Type decision (SEQUENCE/SET, SEQUENCE OF/SET OF), traversal coverage of the five container kinds, adaptor whitelist over component-list chains, kind->type tables, abstract evaluation of the wrappers (Box iff recursive, set marker, DEFAULT annotation and helper, member formatter per component kind, rebuilders keep every field, mark_recursive on definition tables)",
+         "Every decision over ASN1Type treats SET like SEQUENCE and SET OF like SEQUENCE OF; every linker traversal reaches all container kinds; no component-list chain filters, reorders or truncates; kind tables agree with the reference; wrappers are applied under their exact conditions for every evaluated shape.",
+         "Not decided: that nom delivers the components it saw; hoisted names for arbitrary nesting. Two recorded findings."),
+ "C03": ("asnlint", "static analysis: decision tables extracted from the syntax tree (header / keyword / class / Add / format_tag) composed over the 48-cell configuration space and compared with X.680 31.2.7; the tagging pass evaluated on a type with a tag at nine kinds of position and two depths; CHOICE override, automatic_tags guard and per-module reset evaluated",
+         "Exhaustive over the property's finite configuration space (module default x keyword x class); every tag position of the IR is reached by the pass exactly once and rendered; per-module reset is unconditional. Decides these structural clauses, not DER bytes.",
+         "Trusted: rasn's derive semantics of tag(..)/automatic_tags; ref/x680_tagging.json. Three recorded findings (no TAGS clause = IMPLICIT is pinned by a unit test; element tags; nested CHOICE positions)."),
+ "C04": ("asnlint", "static analysis: abstract evaluation of fold_constraint_set over all order types of two operands on a 6-point end-point alphabet; chains of three and four operands with the tree the lexer's own set_operation production builds (SRC-G nom interpreter) against the X.680 clause 50 / X.691 10.3.21 oracle; exhaustive tables for serial combination, rendering, fixed_size, PER-visibility, signedness per component kind, outer extension marker",
+         "For every evaluated operand tuple and operator sequence the emitted bound never excludes a permitted value and equals the hull of the union of the intersections; serial constraints intersect; extensible exactly with a marker; references and named numbers are looked up under the governing type.",
+         "Not decided: chains longer than four operands, parenthesised element sets (a syntax error to this lexer). One recorded finding (untyped named-number fallback)."),
+ "C05": ("asnlint", "static analysis: abstract evaluation of the lexer->IR conversions over opaque elements (sizes 0..2 exhaustive for data-independent code); the per-component closures of the three renderers evaluated for every order relation (index, first-extension index), both EXTENSIBILITY settings and group / non-group names; non_exhaustive and [[ ]] group construction evaluated",
+         "Components after the marker, and only those, are additions; a group becomes one optional member holding the grouped components in order (groups of 1..3); non_exhaustive iff marker or EXTENSIBILITY IMPLIED.",
+         "Trusted: rasn's extension_addition(_group)/non_exhaustive semantics. One recorded finding (COMPONENTS OF counted into the index)."),
+ "C06": ("asnlint", "static analysis: region-exhaustive abstract interpretation of both width selectors (inputs used order-only, enforced), their agreement on every region and on set-operator shapes, the hull of operator chains (= C04.prec), literal rendering evaluated at the ends of every type's range, exhaustive enum tables, unpacking of outer extension markers",
+         "One representative per region of the constant-induced partition of Z decides containment for all integers and presence/extensibility combinations; a fixed-width type only for a non-extensible constraint with both bounds finite; every literal denotes the value and fits its type.",
+         "Not decided: user literals outside their constraint."),
+ "C07": ("asnlint", "static analysis: exhaustive evaluation of literal tables and converters (hex digits, 256 octets, X.660 arcs positionally, string constructors); whole-function evaluation of link_with_type / link_struct_like / link_enum_or_distinguished / format_oid on distilled scenarios (value references, named numbers and enumerals incl. nested and behind reference chains, CHOICE / SEQUENCE / list values, written vs DEFAULT vs omitted components, implicit DEFAULTs raw and linked)",
+         "Table clauses over their whole domain; for every evaluated scenario the linked value denotes the source value and is rendered under the name the type is declared with.",
+         "Everything depending on arbitrary literal contents is not decided. Two recorded findings (OPTIONAL components of SEQUENCE values)."),
+ "C08": ("asnlint+mirscan", "static analysis: MIR call-graph reachability from the API; enumeration and audit of every panic-capable terminator/callee, recursion SCC and open loop; evaluation rules that tie audit entries to their guards (reference chases incl. module-qualified cycles, templates, object cycles, slices, float tokens, input-sized ranges, OID arcs, character-table keys, identifier construction)",
+         "Every panic-capable construct, recursive cycle and open loop reachable from the public API is enumerated from rustc's MIR and must be in the audit tables; the invariants behind entries that matter are decided by evaluation. The enumerated necessary condition of totality, not a proof that every audited site is safe; nothing about run time.",
+         "Trusted: MIR at mir-opt-level=0 exposes all panics as calls/asserts; curated list of panicking library callees; reviewer assertions in audit/*.json. Two recorded findings (parser recursion depth)."),
+ "C09": ("asnlint", "static analysis: detector/rewriter symmetry and traversal coverage; phase order of Validator::link; evaluation of the splice, selection, parameter, scope-lookup, value-chain and rebuild functions on definition tables (incl. name orders)",
+         "Each notation detector and its rewriter visit the same containers and constraint kinds; importing steps precede resolving steps, values are linked in a later pass; lookups prefer the governing type. The equivalence sugared = expanded itself is NOT decided.",
+         "Four recorded findings (COMPONENTS OF appended at the end, untyped fallback, parameter expansion)."),
+ "C10": ("asnlint", "static analysis: exhaustive variant analysis of every generator dispatch evaluated whole (generated / reported / silent); removal sites of the linker re-insert on every branch; every bound error of the validator is pushed or returned; folds evaluated for Ok/Err; misread value assignments reported (same and imported governing type); trailing trivia of tail parsers",
+         "No IR variant outside the documented silent categories reaches an empty output; warnings are local and none is dropped. The bare-name map key is a recorded finding.",
          "Thorough tier adds a compile_fail witness that CompilerError exposes no bindings."),
- "C13": ("asnlint", "static analysis: abstract interpretation of the lexer's nom combinator expressions (lead-trivia / nullability / trivia-only summaries, wrappers inlined, fixpoint over named parsers); boundary obligations between adjacent operands",
-         "At every sequencing boundary of every parser outside lexical (recognize) context, the right operand skips comments and whitespace; the residue is an audited table of intra-token boundaries and 2 known findings. Covers all token boundaries of the grammar source rather than sampled layouts.",
-         "Trusted: nom sequencing semantics; multispace accepts CR/LF. Doc-comment attribution excluded by the property."),
- "C14": ("asnlint", "static analysis: abstract evaluation of the enumeral numbering closure (explicit kept, identifier verbatim, dependence on used numbers); def-use of the additions' start value; emission template",
-         "Explicit numbers and identifiers are stored unchanged and in order; additions continue from the root; the discriminant emitted is the stored index; numbering-by-position (no dependence on used numbers) is a known finding. The full X.680 §20 algorithm is not decided.",
-         "Trusted: fold_many0 applies the closure left to right."),
- "C15": ("asnlint", "static analysis: table extraction from static initialisers (char arrays, code-point ranges) compared cell by cell with X.680 §41 alphabets and canonical order; exhaustive CharacterStringType tables; FROM range index table",
-         "Each known-multiplier type's table equals the normative alphabet in code-point order; both known-multiplier lists equal X.691 §30.1; open/closed FROM range ends map to the right indices, inclusive; singletons/ranges rendered as specified. Folding of FROM set expressions is not decided.",
-         "Trusted: ref/x680_charsets.json."),
- "C17": ("asnlint", "static analysis: normal-form comparison of the three renderings of a lexer error; who-may-write and def-use dependences of Input's position fields; path flow chain",
-         "Display, contextualize() and ReportData show the same line/column/file access paths with no arithmetic; only the constructors and Input::slice write the position, with line += consumed line breaks and offset += consumed length; the source path flows from AsnSource::Path to both renderers. Which position nom selects is not decided.",
-         "Text-level normal forms of a handful of small fns; a refactoring of those fns needs the rule updated."),
- "C18": ("asnlint", "static analysis: bracket balance of every TypeScript template after {{ }} unescaping; syntactic-category typing of union producers vs postfix []; abstract evaluation of the member/choice renderers; exhaustive dispatch",
-         "Every template is balanced and has one export under the definition's own mangled name; `?` iff not Required, index signature iff extension marker, CHOICE = union of single-key objects, arrays parenthesise unions; EXTENSIBILITY IMPLIED being ignored is a known finding. Declared-or-imported closure of names is not decided.",
-         "Trusted: TypeScript precedence of | and []."),
- "C19": ("asnlint", "static analysis: who-may-read table of Config fields; branch delta of the option-dependent quote! templates; derive-set facts",
-         "Every option is read only by the fns of its documented aspect; option-dependent templates differ only in the documented tokens and interpolate the same variables; From impls only append after the unchanged CHOICE for unique payload types; required derives always present, user derives merged without duplicates, every type item goes through the merged annotation list.",
+ "C11": ("asnlint+mirscan", "static analysis: effect analysis over MIR (hashed iteration, ambient reads, statics by type, thread_local) on all reachable bodies; ordered containers; trailing-trivia and end-of-input anchors of the lexer",
+         "No source of run-to-run or order variation is reachable on the compile path; no parser below asn_module depends on what follows the module. Output equality itself is not computed.",
+         "Trusted: std containers other than HashMap/HashSet are deterministic; rustfmt set aside by the property."),
+ "C12": ("asnlint+mirscan", "static analysis: MIR def-use + dominator analysis of Backend::generate_module (per-module reset dominates every reader); evaluation of import association, its merge loop, import templates, qualified references, value lookups",
+         "Per-module state never leaks; each IMPORTS clause becomes a use of exactly its symbols; associated governing types are imported into the right clause; qualified references keep their module.",
+         "Two recorded findings (untyped fallback across modules, alias chains not imported)."),
+ "C13": ("asnlint", "static analysis: abstract interpretation of the lexer's nom combinator expressions (lead-trivia / nullability summaries, fixpoint over 149 parsers, lookaheads included); audited intra-token boundaries; comment scanner evaluated; reserved word sequences",
+         "At every sequencing boundary outside lexical context the right operand skips comments and whitespace; covers all token boundaries of the grammar source rather than sampled layouts.",
+         "Trusted: nom sequencing semantics. Doc-comment attribution excluded by the property."),
+ "C14": ("asnlint", "static analysis: abstract evaluation of the numbering code reached from enumerated_body (helpers followed, slice::binary_search as std implements it) on all 7 590 enumerations with <= 4 root items and <= 3 additions over {implicit,-1,0,1,2,5}, compared item by item with an X.680 clause 20 oracle",
+         "Explicit numbers kept, identifier-only items numbered per 20.3 / 20.6, identifiers in order, emission of the stored index.",
+         "Not decided: enumerations beyond the evaluated domain (the code is a fold with a counter and membership tests; the domain covers every order relation)."),
+ "C15": ("asnlint", "static analysis: character tables evaluated from their initialisers against X.680 clause 41 (set, order, keys = positions); known-multiplier lists; range index table; set operations and operator chains as the lexer nests them (C15.prec); lookup functions evaluated on sets whose index is not the code point",
+         "Each known-multiplier table equals the normative alphabet in canonical order; FROM expressions denote union / intersection with EXCEPT ignored; other string types get no alphabet.",
+         "Trusted: ref/x680_charsets.json. Three recorded findings (UniversalString table; alphabets from bare values are pinned by unit tests)."),
+ "C16": ("asnlint+mirscan", "static analysis: keyword table against rustc's own list (MIR driver); manglers evaluated (guards, case rules on hyphen/digit names); identifier-annotation decision at every emitting fn; raw ASN.1 names reaching identifier construction",
+         "Every strict/reserved keyword is escaped; the documented case rules hold on the evaluated names; the original spelling is recorded exactly when it differs.",
+         "Trusted: rustc_span's keyword classification. Collisions after mangling are a recorded finding under C01."),
+ "C17": ("asnlint", "static analysis: Display, contextualize (with until_next_unindented), ReportData::from and the nom::Err -> LexerError conversion evaluated on concrete reports and texts; Input::slice bookkeeping evaluated on LF / CRLF / CR texts; who-may-write of the position fields; path flow",
+         "The three renderings show the same line for every evaluated position; line = 1 + line breaks consumed; the source path is reported when there is one. Which position nom selects is not decided.",
+         "A few accessors are compared in normal form."),
+ "C18": ("asnlint", "static analysis: bracket balance of every TypeScript template; category typing of union producers vs []; member / choice / enum / value renderers and the dispatcher evaluated per kind; import-line decision evaluated on spellings",
+         "One balanced export per type under its mangled name; `?` iff OPTIONAL / DEFAULT / group, index signature iff extensible, CHOICE as union of single-key objects, fixed-size BIT STRING as string.",
+         "Declared-or-imported closure of names is not decided. Three recorded findings (import decision taken from the spelling; INSTANCE OF)."),
+ "C19": ("asnlint", "static analysis: who-may-read table of Config fields and derived state; option-dependent templates and the module import evaluated for both values under every combination; From impls, derive lines, custom imports evaluated",
+         "Every option is read only by the fns of its documented aspect and changes only the documented tokens.",
          "Trusted: audit/config_reads.json."),
- "C03": ("asnlint", "static analysis: decision-table extraction from the syntax tree (header/keyword/class/Add/format_tag tables), composed over the 48-cell configuration space and compared with X.680; field-coverage and guard truth tables",
-         "Exhaustive over the property's own finite configuration space (module default x tag keyword x class) by composing tables extracted from the source, plus coverage of every Option<AsnTag> position by the tagging pass and the renderer, and the automatic_tags guard. Decides these structural clauses, not the DER bytes.",
-         "Trusted: rasn's derive semantics of tag(..)/automatic_tags; nom combinator semantics; ref/x680_tagging.json transcription. Explicitness of tagged CHOICE components is don't-care (rasn applies it)."),
- "C05": ("asnlint", "static analysis: abstract evaluation of the lexer->IR conversions over opaque list elements; order-relation analysis of the extension-annotation guards; exhaustive guard tables",
-         "The four (root, marker, additions) conversions are evaluated on their syntax tree for every small shape (data-independent code, so sizes 0..2 are exhaustive); the generator's index comparison is decided for every order relation; non_exhaustive and group construction by exhaustive tables.",
-         "Trusted: rasn's extension_addition(_group)/non_exhaustive semantics; that nom delivers the components it matched. The parser's run-time behaviour is not decided."),
- "C06": ("asnlint", "static analysis: region-exhaustive abstract interpretation (interval/order domain) of both width selectors' syntax trees; exhaustive enum tables",
-         "Both selectors use their inputs order-only (enforced, fails closed), so one representative per region of the constant-induced partition of Z decides containment for all integers and all presence/extensibility combinations; max_restrictive (81 cells), to_tokens, literal rendering by exhaustive tables.",
-         "Not decided: that the bounds handed to the selector are the true hull (C04), nor user literals outside their constraint."),
- "C08": ("asnlint+mirscan", "static analysis: MIR call-graph reachability from the API; enumeration and audit of every panic-capable terminator/callee, recursion SCC and non-iterator loop",
-         "Every panic-capable construct, recursive cycle and open loop reachable from the public API is enumerated from rustc's MIR and must be in the audit tables (benign with invariant / baseline / finding); anything new is a violation with a call chain. This is the enumerated necessary condition of totality, not a proof that audited sites are safe.",
-         "Trusted: MIR at mir-opt-level=0 exposes all panics as calls/asserts; curated list of panicking library callees; reviewer assertions in audit/*.json (each names its invariant). Says nothing about run time."),
- "C11": ("asnlint+mirscan", "static analysis: effect analysis over MIR (hashed-container iteration, ambient reads, ptr->int casts, statics by type) on all bodies reachable from the API; container type facts",
-         "No source of run-to-run or order variation is reachable on the compile path: no HashMap/HashSet iteration, no mutable/interior-mutable statics, no env/clock/thread/address/random reads (audited rustfmt lookup aside), and the definition-carrying containers are name-keyed BTreeMaps. Necessary conditions for byte-identical output; output equality is not computed.",
-         "Trusted: std containers other than HashMap/HashSet are deterministic; rustfmt set aside by the property. Duplicate-name last-wins of the definitions map is reported under C10.key."),
- "C12": ("asnlint+mirscan", "static analysis: MIR def-use + dominator analysis of Backend::generate_module (per-module state reset from the current header dominates every reader); template/mangler pairing rules",
-         "For every backend, each environment-typed field is assigned from the current module's header at a point dominating every call that can reach a reader of it (no leak between modules); same header for tagging pass and definition; import templates and manglers paired. Equality of per-module output across compilations is not computed.",
-         "Trusted: MIR dominators; all definitions of a module share one header."),
- "C16": ("asnlint+mirscan", "static analysis: table containment against rustc's own keyword list (enumerated by the MIR driver); guard/emission pairing and truth tables of the manglers; identifier-annotation decisions evaluated for equal/different spellings",
-         "The keyword table must contain every strict/reserved keyword of every edition the compiler knows; each mangler tests the spelling it emits and escapes hits; every emitting fn (set computed from the code) records the original name exactly when the spelling differs. Collisions after mangling are not decided.",
-         "Trusted: rustc_span's keyword classification; weak keywords are legal identifiers."),
- "C20": ("asnlint+mirscan", "static analysis: MIR effect classification and dominators (delivery call dominated by the Ok edge of internal_compile()?); pipeline normal forms; decision tables of output_generated, make_output_mode and main",
-         "Every write effect on the compile path is the single delivery call in compile(), dominated by the Ok edge; the delivered text is the `generated` of the same pipeline compile_to_string returns; destination, CLI flag and exit-status tables are exhaustive; asn1! pipeline shape. Thorough tier adds compile_fail typestate witnesses.",
+ "C20": ("asnlint+mirscan", "static analysis: MIR effect classification and dominators (single delivery call dominated by the Ok edge, must-pass-through); effect model of std's writing primitives evaluated per OutputMode arm; CLI flag, exit-status, builder and module-file tables; typestate setters evaluated",
+         "Every write effect on the compile path is the one delivery of exactly the compiled text to the documented destination, truncating, errors as Err; nothing is written on failure; the CLI and the macro use the library's pipeline. Thorough tier adds compile_fail typestate witnesses.",
          "Not decided: file-system semantics (atomicity, read-only destinations)."),
 }
 
@@ -94,7 +94,7 @@ def main():
         "setup_cmd": "cd /verif && ./tools/setup.sh",
         "hooks": {"guard": "librasn_compiler_verif", "enable": "none needed: static analysis reads /repo's source and MIR; no hooks are compiled into /repo", "baseline_off_cmd": "cd /repo && cargo test --workspace --no-fail-fast --offline", "source_commits": [], "add_only": True},
         "engines": [
-            {"name": "asnlint", "path": "/verif/tools/asnlint", "serves_properties": sorted(CLAIMS), "kind_free_text": "syn-based static analyser of the unexpanded source (table extraction, abstract evaluation, template analysis, structural rules) + verdict logic"},
+            {"name": "asnlint", "path": "/verif/tools/asnlint", "serves_properties": sorted(CLAIMS), "kind_free_text": "syn-based static analyser of the unexpanded source (table extraction, syntax-tree abstract evaluator, nom-combinator interpreters SRC-P / SRC-G, template analysis, structural rules) + verdict logic"},
             {"name": "mirscan", "path": "/verif/tools/mirscan", "serves_properties": ["C08", "C11", "C12", "C16", "C20"], "kind_free_text": "rustc_private driver (nightly) emitting MIR facts: resolved call graph, panic-capable terminators, field def-use, CFG"},
         ],
         "checks": checks,
